@@ -12,6 +12,8 @@ import NumqiProofs.CliffordLemmas
 import NumqiProofs.CliffordAlgebra
 import NumqiProofs.CliffordEmbed
 import NumqiProofs.CliffordCircuit
+import NumqiProofs.CliffordQecBridge
+import NumqiProofs.CliffordOrbit
 import Mathlib.Analysis.Real.Sqrt
 import Mathlib.Data.Complex.Basic
 
@@ -287,6 +289,79 @@ example : Complex.I * Complex.I = -1 ∧ star Complex.I = -Complex.I ∧
   · rw [← Complex.ofReal_inv]; exact Complex.conj_ofReal _
   · rw [← Complex.ofReal_inv, ← Complex.ofReal_mul, ← mul_inv, Real.mul_self_sqrt (by norm_num)]
     norm_num
+
+/-! ### C19 (QEC model) ↔ C07 / C08 / C03: one set of objects -/
+
+/-- C19's mask operator `i^k X^x Z^z` and its image `ofMP` in C07 denote the same element of C08's `Pauli n` -/
+theorem qec_pauli_agree {n : Nat} (p : Qec.MP) (hx : p.x < 2 ^ n) :
+    toPauli n (ofMP n p) = Qec.toPauli n p := toPauli_ofMP p hx
+
+/-- C19's product on masks is `mulB` (= C08's `Pauli.mul`), phase included -/
+theorem qec_mul_is_mulB {n : Nat} (hn : n ≤ 32) (a b : Qec.MP) (hax : a.x < 2 ^ n) (hbx : b.x < 2 ^ n) :
+    ofMP n (Qec.MP.mul a b) = mulB n (ofMP n a) (ofMP n b) := ofMP_mul hn a b hax hbx
+
+/-- C19's anticommutation test is the negation of C08's commutation test -/
+theorem qec_acomm_is_not_commutes {n : Nat} (hn : n ≤ 32) (a b : Qec.MP) (hax : a.x < 2 ^ n) (hbx : b.x < 2 ^ n) :
+    Qec.MP.acomm a b = !(Pauli.commutes (Qec.toPauli n a) (Qec.toPauli n b)) :=
+  acomm_iff_not_commutes hn a b hax hbx
+
+/-- **C19's gate step on state vectors is multiplication by C03's operator of the same gate** (`embed` / `ctrlEmbed`,
+`H` unnormalised as in C19), under `basis state b ↦ position Σ b_i 2^i` -/
+theorem qec_gate_is_C03_operator {R : Type} [CommRing R] {n : Nat} (I : R) (g : Qec.Gate)
+    (hg : Qec.gateOk n g = true) (g' : Gate) (hg' : toGate g = some g') (v : Nat → R) (x : Bits n) :
+    Qec.applyGate I g v (Qec.posOf x) = (gateMatrixN I 1 n g').mulVec (fun b => v (Qec.posOf b)) x :=
+  qec_applyGate_eq I g hg g' hg' v x
+
+/-- C19's per-gate soundness as an identity of C03/C08 matrices: `G · P = (conj1 P g) · G` -/
+theorem qec_conj1_matrix {R : Type} [CommRing R] {n : Nat} {I : R} (hI : I * I = -1) (hn : n ≤ 32) (g : Qec.Gate)
+    (hg : Qec.gateOk n g = true) (g' : Gate) (hg' : toGate g = some g') (p p' : Qec.MP)
+    (h : Qec.conj1 p g = some p') (hx : p.x < 2 ^ n) (hz : p.z < 2 ^ n) :
+    gateMatrixN I 1 n g' * PM n I (ofMP n p) = PM n I (ofMP n p') * gateMatrixN I 1 n g' :=
+  conj1_matrix hI hn g hg g' hg' p p' h hx hz
+
+/-- **tableau steps agree**: C19's `conj1` (`P ↦ G P G†`) is undone by C07's adjoint-gate tableau of the same gate
+(`gateAct`: `P' ↦ G† P' G`), bit for bit, for every register size `n ≤ 32` -/
+theorem qec_tableau_step_inverse {n : Nat} (hn : n ≤ 32) (g : Qec.Gate) (hg : Qec.gateOk n g = true) (g' : Gate)
+    (hg' : toGate g = some g') (p p' : Qec.MP) (h : Qec.conj1 p g = some p') (hx : p.x < 2 ^ n) (hz : p.z < 2 ^ n) :
+    gateAct n (ofMP n p') g' = ofMP n p := conj1_gateAct hn g hg g' hg' p p' h hx hz
+
+/-- **C19's `tableau_is_conjugation` and C07's `circuit_conjugation` are about the same objects**: if C19 propagates `P`
+through a gate list to `P'` (`= U P U†`), C07's tableau of the same recorded circuit maps `P'` back to `P` (`= U† P' U`) -/
+theorem qec_tableau_inverse {n : Nat} (hn : n ≤ 32) (gs : List Qec.Gate) (hg : gs.all (Qec.gateOk n) = true)
+    (gates : List Gate) (hgs : gs.mapM toGate = some gates) (hnq : Clifford.numQubit gates = .ok n)
+    (t : Tab) (ht : symplecticOf gates = .ok t) (hwf : GatesWF gates)
+    (p p' : Qec.MP) (h : Qec.conjCirc p gs = some p') (hx : p.x < 2 ^ n) (hz : p.z < 2 ^ n) :
+    applyOnPauli (ofMP n p') t = ofMP n p :=
+  conjCirc_tableau hn gs hg gates hgs hnq t ht hwf p p' h hx hz
+
+/-! ### orbits of Pauli index sets under Sp(2n,F2) (`get_pauli_subset_equivalent`, `get_pauli_subset_stabilizer`) -/
+
+/-- **the enumerated orbit is the full Sp(2n,F2)-orbit**: the image of the index set under *every* symplectic matrix is
+among the images produced by the loop over `from_int_tuple` (C09 `from_to`) … -/
+theorem pauli_subset_orbit_complete (n : Nat) (subset : List Nat) (S : List Nat) (hS : SpF2.isSp n S = true) :
+    subsetImage n S (firstElement subset) ∈ orbitImages n subset := orbit_complete n subset S hS
+
+/-- … and every image produced comes from a symplectic matrix -/
+theorem pauli_subset_orbit_sound (n : Nat) (subset : List Nat) (img : List Nat) (h : img ∈ orbitImages n subset) :
+    ∃ S, SpF2.isSp n S = true ∧ img = subsetImage n S (firstElement subset) := orbit_sound n subset img h
+
+/-- the set returned by `get_pauli_subset_equivalent` is `{first_element} ∪ images` -/
+theorem pauli_subset_equivalent_mem (n : Nat) (subset : List Nat) (x : List Nat) :
+    x ∈ subsetEquivalent n subset ↔ x = firstElement subset ∨ x ∈ orbitImages n subset :=
+  mem_subsetEquivalent n subset x
+
+/-- `get_pauli_subset_stabilizer` returns exactly the in-range tuples whose matrix fixes the set … -/
+theorem pauli_subset_stabilizer_mem (n : Nat) (subset : List Nat) (t : List (Nat × Nat)) :
+    t ∈ subsetStabilizer n subset ↔ (t.length = n ∧ SpF2.inRange t = true) ∧
+      subsetImage n (SpF2.fromIntTuple t) (firstElement subset) = firstElement subset :=
+  mem_subsetStabilizer n subset t
+
+/-- … and every symplectic matrix fixing the set is the matrix of one of them (the full stabiliser) -/
+theorem pauli_subset_stabilizer_complete (n : Nat) (subset : List Nat) (S : List Nat) (hS : SpF2.isSp n S = true)
+    (hfix : subsetImage n S (firstElement subset) = firstElement subset) :
+    ∃ t ∈ subsetStabilizer n subset, SpF2.fromIntTuple t = S := stabilizer_complete n subset S hS hfix
+
+example : subsetEquivalent 1 [1] = [[1], [3], [2]] ∧ subsetStabilizer 1 [1] = [[(0, 0)], [(0, 1)]] := by decide +kernel
 
 /-- all 24 one-qubit tableaux: Sp(2,F2) (enumerated by `from_int_tuple`) × all 4 phase vectors -/
 def tabs1 : List Tab :=
